@@ -339,12 +339,13 @@ def t2(ctx, rep, T):
         rep.check(ok, 'T2', f'try_from:{cont}', f'`{cont}` → SpecialRustType::{cont} of its type argument(s)', f"RustType::try_from maps the name `{cont}` to `{vt.show(oks[0])[:70] if oks else 'no accepted value'}` — expected RustType::Special(SpecialRustType::{cont}(..)) built from its type argument(s)", site_p)
         if cont == 'HashMap' and ok:
             def var_chain(x):
-                # names of the locals the value is a (cloned / converted / `?`-unwrapped) copy of
-                names, d = set(), 0
+                # names of the locals the value is a (cloned / converted / `?`-unwrapped) copy of, outermost first
+                names, d = [], 0
                 while isinstance(x, dict) and d < 20:
                     d += 1
                     if x.get('k') == 'var':
-                        names.add(x.get('name'))
+                        if not str(x.get('name') or '').endswith('()'):      # `f()` names the result of an expanded call: each call is a draw of its own
+                            names.append(x.get('name'))
                         x = x.get('v')
                     elif x.get('k') in ('try', 'ref', 'deref', 'paren'):
                         x = x.get('v')
@@ -353,7 +354,12 @@ def t2(ctx, rep, T):
                     else:
                         break
                 return names
-            same = [a for a in args if var_chain(a[0]) & var_chain(a[1])]
+            # the same value twice: the local one argument starts from is on the other argument's chain (`value = key.clone()`);
+            # a name shared deeper down (the binding inside a helper both draws go through) does not count
+            def same_local(a0, a1):
+                c0, c1 = var_chain(a0), var_chain(a1)
+                return bool(c0 and c1 and (c0[0] in c1 or c1[0] in c0))
+            same = [a for a in args if same_local(a[0], a[1])]
             rep.check(not same, 'T2', 'try_from:HashMap:key-then-value', 'two successive arguments', 'RustType::try_from: HashMap uses one type argument for both key and value; key and value are both needed, in order', site_p)
     wrapped, plain = [], []
     for n in sorted(SMART_POINTERS):
